@@ -4,7 +4,8 @@
  *
  * The OS entry points the source may use - getrandom, getentropy, syscall(SYS_getrandom), open/read/close of
  * /dev/urandom - are interposed at link time (-Wl,--wrap=...).  Each plan line is one call of the source:
- *     seq id=<id> prefill=<byte> items=EINTR,EAGAIN,SHORT:5,OK,PERM:5,OPENFAIL:2,...
+ *     seq id=<id> prefill=<byte> [denyopen=0|1] items=EINTR,EAGAIN,SHORT:5,OK,PERM:5,OPENFAIL:2,...
+ *       (denyopen=1: descriptor exhaustion - any open() other than the scripted /dev/urandom fails with EMFILE)
  * Items are consumed by successive OS calls; when they run out the OS succeeds.  Every OS call and the final
  * result are logged as ndjson:  {"e":"Os",...}* {"e":"Trng",...}
  */
@@ -108,6 +109,7 @@ time_t __wrap_time(time_t *t)
     if (!active) return __real_time(t);
     fake_now += 10; if (t) *t = fake_now; return fake_now;
 }
+static int deny_other_open;     /* denyopen=1: the process is out of descriptors - every open() the script does not serve fails with EMFILE */
 int __real_open(const char *path, int flags, ...);
 int __wrap_open(const char *path, int flags, ...)
 {
@@ -121,6 +123,7 @@ int __wrap_open(const char *path, int flags, ...)
         emit_os("open", "FD", our_fd, 0);
         return our_fd;
     }
+    if (active && deny_other_open) { errno = EMFILE; return -1; }
     return __real_open(path, flags, mode);
 }
 ssize_t __real_read(int fd, void *buf, size_t len);
@@ -178,11 +181,13 @@ int main(void)
         while (L && (line[L-1] == '\n' || line[L-1] == '\r')) line[--L] = 0;
         if (strncmp(line, "seq ", 4)) continue;
         int prefill = 0xA5, has_rep = 0, entry_errno = 0; char *its = NULL;
+        deny_other_open = 0;
         snprintf(cur_id, sizeof(cur_id), "?");
         for (char *sv = NULL, *tok = strtok_r(line + 4, " ", &sv); tok; tok = strtok_r(NULL, " ", &sv)) {
             if (!strncmp(tok, "id=", 3)) snprintf(cur_id, sizeof(cur_id), "%s", tok + 3);
             else if (!strncmp(tok, "prefill=", 8)) prefill = (int)strtol(tok + 8, NULL, 0);
             else if (!strncmp(tok, "errno=", 6)) entry_errno = (int)strtol(tok + 6, NULL, 0);
+            else if (!strncmp(tok, "denyopen=", 9)) deny_other_open = (int)strtol(tok + 9, NULL, 0);
             else if (!strncmp(tok, "items=", 6)) its = tok + 6;
             else if (!strncmp(tok, "rep=", 4)) { /* rep=N:ITEM expands to N copies (long transient runs) */
                 long n = atol(tok + 4); char *c = strchr(tok, ':');
